@@ -162,7 +162,8 @@ def drive_wsgi(sv, which, proto, validator, body, method='POST', ctype='', path=
                 it.close()
     except Exception as e:
         exc, site = crash_site(e)
-        return Obs('crash', exc=exc, site=site, called=sv.calls, stage='wsgi', status=st[0][0] if st else None)
+        return Obs('crash', exc=exc, site=site, called=sv.calls, stage='wsgi', status=st[0][0] if st else None,
+                   mro=['%s.%s' % (c.__module__, c.__qualname__) for c in type(e).__mro__])
     status = st[0][0] if st else None
     if status is None:
         return Obs('crash', exc='NoStartResponse', site='response', called=sv.calls, stage='response')
